@@ -90,6 +90,8 @@ pub enum Ev {
     Stray(Actor),
     /// a puppet subscription deferred its answer to a Pull
     Defer(u16),
+    /// a probe handler synchronously triggered this upstream event
+    Nested(EvId),
 }
 
 #[derive(Clone, Copy, Debug, PartialEq, Eq, Hash)]
@@ -119,6 +121,8 @@ pub enum What {
     SpawnRes(u8),
     /// thread scheduler
     Sched,
+    /// which upstream event a probe handler triggers synchronously
+    Nested(u8),
 }
 
 #[derive(Clone, Copy, Debug, PartialEq, Eq, Hash)]
@@ -158,6 +162,8 @@ pub mod opt {
     pub const INNER0: u8 = 16; // +inner
     pub const PULL_OTHER0: u8 = 40; // +q
     pub const SUBSCRIBE_NEXT: u8 = 48;
+    /// the handler synchronously causes another upstream subscription to act (greet/emit/end)
+    pub const NESTED_EVENT: u8 = 49;
     pub const OK: u8 = 32;
     pub const FAIL_SPAWN: u8 = 33;
     pub const FAIL_CLOSED: u8 = 34;
@@ -177,6 +183,7 @@ pub mod opt {
             16..=31 => format!("inner{}", c - 16),
             40..=47 => format!("pull-on-probe{}", c - 40),
             SUBSCRIBE_NEXT => "subscribe-next-probe".into(),
+            NESTED_EVENT => "nested-upstream-event".into(),
             OK => "ok".into(),
             FAIL_SPAWN => "fail-Spawn".into(),
             FAIL_CLOSED => "fail-Closed".into(),
@@ -279,6 +286,8 @@ pub struct Cfg {
     pub cross_dispose: bool,
     /// probe handlers may pull on / subscribe another probe (C13: nested overlap of subscriptions)
     pub cross_act: bool,
+    /// probe handlers may synchronously trigger an event of another (not currently sending) upstream
+    pub nested_events: bool,
     /// puppet may fail (emit Error)
     pub puppet_err: bool,
     /// spawn failure alternatives offered by the mock nursery
@@ -308,6 +317,7 @@ impl Default for Cfg {
             max_probes: 1,
             cross_dispose: false,
             cross_act: false,
+            nested_events: false,
             puppet_err: true,
             spawn_fail: false,
             no_nested_emit: false,
@@ -599,7 +609,7 @@ pub fn choose_opt(kind: Kind, what: What, menu: &[u8]) -> u8 {
 
 pub fn render_choice(ex: &Exec, c: &ChoiceRec) -> String {
     let picked = match c.what {
-        What::Event => {
+        What::Event | What::Nested(_) => {
             let m = &ex.menus[c.menu_idx as usize];
             format!("{:?}", m[c.pick as usize])
         },
